@@ -142,6 +142,15 @@ macro_rules! errty { ($n:ident) => {
 } }
 errty!(E0); errty!(E1); errty!(E2); errty!(E9);
 pub type BoxErr = Box<dyn StdError + Send + Sync + 'static>;
+// the four trait-object flavours the vendored `AsDynError` supports, holding an error that has a source of its own: `source()`
+// of the deriving type must be the HELD error, not the held error's source
+pub type BoxErrC0 = Box<dyn StdError + 'static>;
+pub type BoxErrC1 = Box<dyn StdError + Send + 'static>;
+pub type BoxErrC2 = Box<dyn StdError + Send + Sync + 'static>;
+pub type BoxErrC3 = Box<dyn StdError + Send + Sync + ::core::panic::UnwindSafe + 'static>;
+#[derive(Debug)] pub struct Mid(pub [u64; 2], pub E9);   // the inner error does not share the holder's address
+impl ::core::fmt::Display for Mid { fn fmt(&self, f: &mut ::core::fmt::Formatter<'_>) -> ::core::fmt::Result { write!(f, "Mid") } }
+impl StdError for Mid { fn source(&self) -> Option<&(dyn StdError + 'static)> { Some(&self.1) } }
 pub fn src_adr(e: &dyn StdError) -> Option<usize> { e.source().map(|s| adr(s)) }
 '''
 
@@ -151,6 +160,8 @@ def tyname_b(f, i, mode):
         return "::std::backtrace::Backtrace"
     if mode == "box":
         return "BoxErr"
+    if mode.startswith("boxchain"):
+        return "BoxErrC" + mode[-1]
     if mode == "generic":
         return "T%d" % i
     return "E%d" % i
@@ -170,6 +181,8 @@ def runtime_case(cid, named, fields, container, mode, want, shape="pre_post"):
     def val(i, f):
         if f["ty"] == "bt":
             return "::std::backtrace::Backtrace::disabled()"
+        if mode.startswith("boxchain"):
+            return "Box::new(Mid([7, 7], E9(%d)))" % i
         return "Box::new(E%d(%d))" % (i, i) if mode == "box" else "E%d(%d)" % (i, i)
 
     vals = [val(i, f) for i, f in enumerate(fields)]
@@ -193,8 +206,8 @@ def runtime_case(cid, named, fields, container, mode, want, shape="pre_post"):
     if want is None:
         expect = "None"
     else:
-        expect = "Some(adr(&**%s))" % ("&" + access(want)) if mode == "box" else "Some(adr(&%s))" % access(want)
-        if mode == "box":
+        expect = "Some(adr(&**%s))" % ("&" + access(want)) if mode.startswith("box") else "Some(adr(&%s))" % access(want)
+        if mode.startswith("box"):
             expect = "Some(adr(&*%s))" % access(want) if container == "struct" else "Some(adr(&**p%d))" % want
     lines = ["let s: S%s = %s;" % (inst, ctor), bind,
              'r.eq("source() is exactly the selected field", src_adr(&s), %s);' % expect]
@@ -285,7 +298,7 @@ def run(chk, tier):
             if not thorough:
                 continue
         for container in ("struct", "enum"):
-            modes = ["plain", "box", "generic"] if (n <= 2 or thorough) else ["plain"]
+            modes = (["plain", "box", "generic"] + ["boxchain%d" % k for k in range(4)]) if (n <= 2 or thorough) else ["plain"]
             for mode in modes:
                 if mode == "generic" and n == 0:
                     continue
@@ -311,7 +324,7 @@ def run(chk, tier):
         else:
             chk.violation("wrong source at run time %s" % c.meta["mode"], c.meta["src"], r.detail)
     chk.part("B_runtime_stable", programs=len(cases), bins_built=eng.bins_built, rounds=eng.rounds, build_s=round(eng.build_s, 1),
-             enum_shapes=["Pre / V / Post", "V alone", "V + ignored variant", "ignored variant + V", "V + variant with its own source"], note="layouts without a detected backtrace (a `provide` method needs nightly); field types: distinct error types, Box<dyn Error+Send+Sync>, generic T: Error")
+             enum_shapes=["Pre / V / Post", "V alone", "V + ignored variant", "ignored variant + V", "V + variant with its own source"], note="layouts without a detected backtrace (a `provide` method needs nightly); field types: distinct error types, Box<dyn Error+Send+Sync>, generic T: Error, and the four boxed trait-object flavours holding an error that itself has a source")
     # ---------------- seam B on nightly: layouts with a detected backtrace (their `provide` method needs an unstable feature)
     if thorough:
         ncases = []
